@@ -44,7 +44,22 @@
 @@ verus
 // ---- well-formedness of decoded DNS data: what the decoder establishes and the encoder relies on ----
 pub open spec fn label_wf(l: Label) -> bool { 1 <= l.0@.len() <= 63 }
-pub open spec fn domain_wf(d: Domain) -> bool { forall|i: int| 0 <= i < d.0@.len() ==> label_wf(#[trigger] d.0@[i]) }
+// octets the labels take on the wire, one length octet each (the root octet is counted separately)
+pub open spec fn labels_len(s: Seq<Label>) -> int decreases s.len() {
+    if s.len() == 0 { 0 } else { labels_len(s.drop_last()) + 1 + s.last().0@.len() }
+}
+// RFC 1035 2.3.4: labels are 1..=63 octets and the whole name, root octet included, at most 255
+pub open spec fn domain_wf(d: Domain) -> bool {
+    &&& forall|i: int| 0 <= i < d.0@.len() ==> label_wf(#[trigger] d.0@[i])
+    &&& labels_len(d.0@) + 1 <= 255
+}
+pub proof fn lemma_labels_len_push(s: Seq<Label>, l: Label)
+    ensures labels_len(s.push(l)) == labels_len(s) + 1 + l.0@.len()
+{ assert(s.push(l).drop_last() =~= s); }
+pub proof fn lemma_labels_len_nonneg(s: Seq<Label>)
+    ensures labels_len(s) >= 0
+    decreases s.len()
+{ if s.len() > 0 { lemma_labels_len_nonneg(s.drop_last()); } }
 pub open spec fn rdata_wf(t: Type, r: RData) -> bool {
     match r {
         RData::CName(d) => domain_wf(d),
